@@ -22,7 +22,7 @@ TITLE = 'Upgrading a 1.0 dataset to 1.1 preserves all of its content'
 GEN = ['Headers', 'DtypeNames']
 RULE = ('each case = a generated dataset (one type per feature kind) written as a 1.0 directory by the harness: version lines 1.0 '
         '(points3d with or without), element type spelled float32 / np.float32 / numpy.float32 / double / float / uint8 ..., image '
-        'folders nested and, with probability 0.3, one named like the keypoints type holding an image of the same name, explicit or '
+        'folders nested and, with probability 0.4, one named like the keypoints type holding an image of the same name (half of those also hold the same deeper sub-paths inside and outside that folder), explicit or '
         'defaulted type names, side json files; routes: inplace, copy x {skip, copy, link_absolute, link_relative}, automatic. '
         'distinct non-trivial = distinct cases with at least one feature folder')
 ASSUMPTIONS = [
@@ -53,7 +53,9 @@ def gen_case(rng):
         d['descriptors']['sift']['keypoints_type'] = 'sift'
     if d['matches']:
         d['matches'] = {'sift': d['matches'].get('sift', next(iter(d['matches'].values())))}
-    clash = rng.random() < 0.3 and bool(d['keypoints'])
+    clash = rng.random() < 0.4 and bool(d['keypoints'])
+    if clash and rng.random() < 0.5:
+        clash = 'deep'
     explicit = rng.random() < 0.4
     params = {'kp': 'kp_new' if explicit and rng.random() < 0.7 else None, 'desc': 'desc_new' if explicit and rng.random() < 0.5 else None,
               'gf': 'gf_new' if explicit and rng.random() < 0.5 else None, 'descMetric': rng.choice(['L2', 'L1']),
@@ -130,6 +132,12 @@ def tree_10(case, base):
             base_name = names[0].split('/')[-1]
             put(f'reconstruction/{kind}/{base_name}{ext}', repr(('top', kind, base_name)).encode())
             put(f'reconstruction/{kind}/{tname}/{base_name}{ext}', repr(('clash', kind, base_name)).encode())
+            if case['clash'] == 'deep':
+                # the same sub-path one or two folders down, inside and outside the folder named like the type, with
+                # folder names sorting before and after the type name
+                for sub in ('aaa', 'zzz/deep', '~q'):
+                    put(f'reconstruction/{kind}/{sub}/{base_name}{ext}', repr(('out', kind, sub, base_name)).encode())
+                    put(f'reconstruction/{kind}/{tname}/{sub}/{base_name}{ext}', repr(('in', kind, sub, base_name)).encode())
         if case['json'] and kind != 'descriptors':
             jn = 'extract_local_features.json' if kind == 'keypoints' else 'extract_global_features.json'
             with open(os.path.join(root, 'reconstruction', kind, jn), 'w') as f:
